@@ -45,7 +45,18 @@ theorem C05_fails_on_pinned : ∃ acts, (run Skeleton.pinned init acts).map (·.
     .respFrame 0 0 1 false, .respFrame 1 0 2 false, .pubLookup 0, .pubLookup 1,
     .waiterGetsValue 0 0, .waiterSend 0, .waiterFree 0, .pubSendClosed 1], by decide⟩
 
+/-- "closure release": M2's `callReturn…` steps release the call's closures as part of the step.  In
+    the source the release takes the closure table's mutex; `CallClosure` holds that mutex only for the
+    look-up, never while the closure runs, and the table is touched by nothing else (checked against the
+    regenerated skeleton) — so a release never waits for a running closure (no deadlock between a
+    cancelled call and its own still-running closure, nor for a closure body that passes a closure on). -/
+theorem C05_closure_release_never_waits_for_a_running_closure :
+    Skeleton.current.clInvokeOutsideLock = true ∧ Skeleton.current.clLockIsMutex = true ∧
+    Skeleton.current.clDeleteUnderLock = true ∧ Skeleton.current.clLookupUnderLock = true := by decide
+
 end Panrpc.Ep
+
+#print axioms Panrpc.Ep.C05_closure_release_never_waits_for_a_running_closure
 
 #print axioms Panrpc.Ep.C05_no_crash
 #print axioms Panrpc.Ep.C05_projects_to_broadcaster
